@@ -63,7 +63,7 @@ namespace BitSerializer::Csv::Detail
 
 	private:
 		bool ParseNextLine(std::vector<CValueMeta>& out_values);
-		std::string_view UnescapeValue(char* beginIt, const char* endIt);
+		std::string_view UnescapeValue(const char* beginIt, const char* endIt);
 
 		Convert::Utf::CEncodedStreamReader<char> mEncodedStreamReader;
 		std::string mDecodedBuffer;
@@ -72,6 +72,7 @@ namespace BitSerializer::Csv::Detail
 
 		std::vector<std::string> mHeaders;
 		std::vector<CValueMeta> mRowValuesMeta;
+		std::string mTempValueBuffer;
 		size_t mCurrentPos = 0;
 		size_t mLineNumber = 0;
 		size_t mRowIndex = 0;
